@@ -11,6 +11,7 @@
 //!     D=<entry;entry;..>         the full descriptor table in catalogue order:
 //!                                <sample hex>:<contig hex>:<part index>:<group>:<in-group id>:<rc>:<raw length>
 //! line:  OK k=.. spl=.. R=.. G=.. D=..
+//! case:  spl <dir> <params>   prints only the splitter set: OK <hex,..|->
 #[path = "../mk.rs"]
 mod mk;
 #[path = "../runner.rs"]
@@ -98,6 +99,15 @@ fn table(path: &str) -> anyhow::Result<(u32, Vec<String>, u32)> {
 
 fn run(t: &[&str]) -> String {
     match t {
+        // only the splitter set (sorted): the generator aims palindromic k-mer pairs at splitter windows
+        ["spl", dir, params] => {
+            let p = mk::Params::parse(params);
+            match splitters_of(&mk::case_inputs(dir), &p) {
+                Ok(v) if v.is_empty() => "OK -".into(),
+                Ok(v) => format!("OK {}", v.iter().map(|x| format!("{:x}", x)).collect::<Vec<_>>().join(",")),
+                Err(e) => format!("SPLITTERS-ERR {}", format!("{:#}", e).replace('\n', " ")),
+            }
+        }
         ["reg", dir, params] => {
             let p = mk::Params::parse(params);
             let out = format!("{}/out_c01r.agc", dir);
